@@ -125,9 +125,23 @@ Fixpoint mapM {A B} (f : A -> option B) (l : list A) : option (list B) :=
 
 (* the mutually recursive core: power, product, sum, with their helpers.
    [chk]: the merge functions assume that simplifying a pair [x; y] yields nothing, one expression, or the pair itself in some
-   order; with chk = true the model returns None when that assumption fails (chk = false is the code as written) *)
+   order; with chk = true the model returns None when that assumption fails (chk = false is the code as written).
+   [iexp]: the three power identities (b^e1 * b^e2 = b^(e1+e2), (b^e1)^e2 = b^(e1*e2), (a*b)^e = a^e * b^e) hold over the reals
+   without side conditions only for integer exponents; with iexp = true the model returns None where the code would apply one of
+   them to an exponent that is not an INTEGER leaf (iexp = false is the code as written).
+   [fits]: integers live in the int64 command array; a folded integer that does not fit is not folded (fits64 below is the code;
+   the parameter lets theorems also speak about unbounded integer folding) *)
+Definition fits64 (k : Z) : bool := (- 2 ^ 63 <=? k) && (k <=? 2 ^ 63 - 1).
 Section Core.
 Variable chk : bool.
+Variable iexp : bool.
+Variable fits : Z -> bool.
+(* _integer_power: exact base ** exponent, or None if it cannot be stored *)
+Definition integer_power (b e : Z) : option Z :=
+  if (1 <? Z.abs b) && (63 <? e) then None else
+  (* bases 0, 1, -1 by cases: Z.pow iterates e times, and e can be 2^62 here *)
+  let p := if b =? 0 then 0 else if b =? 1 then 1 else if b =? -1 then (if Z.even e then 1 else -1) else b ^ e in
+  if fits p then Some p else None.
 Fixpoint simplify_power (fuel : nat) (e : cexpr) : option cexpr :=
   match fuel with O => None | S f =>
     match args_of e with
@@ -143,15 +157,18 @@ with simplify_constant_power (fuel : nat) (b ex : cexpr) : option cexpr :=
   match fuel with O => None | S f =>
     if is_one ex then Some b
     else if is_zero ex then Some ONE
-    else if is_int b && is_int ex && (0 <? leaf_val ex) then Some (mk_int (leaf_val b ^ leaf_val ex))
+    else if is_int b && is_int ex && (0 <? leaf_val ex) then
+      match integer_power (leaf_val b) (leaf_val ex) with Some p => Some (mk_int p) | None => Some (Node POWER [b; ex]) end
     else if is_pow b then
       match args_of b with
       | [bb; be] =>
+        if iexp && negb (is_int be && is_int ex) then None else
         o_bind (simplify_product f (Node MULTIPLICATION [be; ex])) (fun ne =>
           if is_int be || is_cst be then simplify_constant_power f bb ne else Some (Node POWER [bb; ne]))
       | _ => None
       end
     else if is_mul b then
+      if iexp && negb (is_int ex) then None else
       o_bind (mapM (fun x => simplify_constant_power f x ex) (args_of b)) (fun l => simplify_product f (Node MULTIPLICATION l))
     else Some (Node POWER [b; ex])
   end
@@ -171,13 +188,15 @@ with simplify_product_rec (fuel : nat) (ops : list cexpr) : option (list cexpr) 
     match ops with
     | [op1; op2] =>
       if is_int op1 && is_int op2 then
-        (let p := mk_int (leaf_val op1 * leaf_val op2) in if is_one p then Some [] else Some [p])
+        (if negb (fits (leaf_val op1 * leaf_val op2)) then (if expr_lt op2 op1 then Some [op2; op1] else Some ops) else
+         let p := mk_int (leaf_val op1 * leaf_val op2) in if is_one p then Some [] else Some [p])
       else if negb (is_mul op1 || is_mul op2) then
         if is_one op1 then Some [op2]
         else if is_one op2 then Some [op1]
         else if oeqb (base_of op1) (base_of op2) then
           match base_of op1, exponent_of op1, exponent_of op2 with
           | Some b1, Some e1, Some e2 =>
+            if iexp && negb (is_int e1 && is_int e2) then None else
             o_bind (simplify_sum f (Node ADDITION [e1; e2])) (fun ne =>
             o_bind (simplify_power f (Node POWER [b1; ne])) (fun c =>
               if is_one c then Some [] else Some [c]))
@@ -226,7 +245,8 @@ with simplify_sum_rec (fuel : nat) (ops : list cexpr) : option (list cexpr) :=
     match ops with
     | [op1; op2] =>
       if is_int op1 && is_int op2 then
-        (let p := mk_int (leaf_val op1 + leaf_val op2) in if is_zero p then Some [] else Some [p])
+        (if negb (fits (leaf_val op1 + leaf_val op2)) then (if expr_lt op2 op1 then Some [op2; op1] else Some ops) else
+         let p := mk_int (leaf_val op1 + leaf_val op2) in if is_zero p then Some [] else Some [p])
       else if negb (is_add op1 || is_add op2) then
         if is_zero op1 then Some [op2]
         else if is_zero op2 then Some [op1]
@@ -334,6 +354,8 @@ Fixpoint insert_subtraction (depth : nat) (e : cexpr) : option cexpr :=
           end)
     end
   end.
+(* MAX_REPLACED_INTEGER_POWER *)
+Definition max_replaced_integer_power : Z := 100.
 Fixpoint replace_integer_powers (depth : nat) (e : cexpr) : option cexpr :=
   match depth with O => None | S d =>
     match e with
@@ -341,7 +363,7 @@ Fixpoint replace_integer_powers (depth : nat) (e : cexpr) : option cexpr :=
     | Node op l =>
       o_bind (mapM (replace_integer_powers d) l) (fun l' =>
         match l' with
-        | [b; ex] => if (op =? POWER) && is_int ex && (0 <? leaf_val ex)
+        | [b; ex] => if (op =? POWER) && is_int ex && (0 <? leaf_val ex) && (leaf_val ex <=? max_replaced_integer_power)
                      then Some (Node MULTIPLICATION (repeat b (Z.to_nat (leaf_val ex)))) else Some (Node op l')
         | _ => Some (Node op l')
         end)
@@ -420,7 +442,7 @@ Fixpoint arity_ok (e : cexpr) : bool :=
   end.
 
 (* ---------------- simplify.py: the pipeline; [fold] stands for fold_constants ---------------- *)
-Definition simplify_stack (chk : bool) (fuel : nat) (fold : cexpr -> cexpr) (s : stack) : option stack :=
+Definition simplify_stack (chk iexp : bool) (fits : Z -> bool) (fuel : nat) (fold : cexpr -> cexpr) (s : stack) : option stack :=
   o_bind (build_cas s) (fun e0 =>
-  o_bind (automatic_simplify chk fuel fuel e0) (fun e1 =>
+  o_bind (automatic_simplify chk iexp fits fuel fuel e0) (fun e1 =>
   o_bind (optional_modifications fuel (fold e1)) build_agraph_stack)).
